@@ -108,12 +108,19 @@ def plan_cfgs(rng, md, n, modes=None):
     for k in range(n):
         cfgs.append({'mode': modes[k % len(modes)], 'ln': lns[k % len(lns)], 'fmt': FORMATS[rng.randrange(3)],
                      'scaled': rng.random() < .5, 'jac': rng.choice(JAC_TYPES),
-                     'coloring': rng.choice([None, None, 'direct', 'subst'])})
+                     'coloring': rng.choice([None, None, 'direct', 'subst']),
+                     # cache of linear solutions keyed on the right-hand side (LinearRHSChecker): equal / negated /
+                     # parallel right-hand sides are answered from the cache, zero ones skipped
+                     'rhsc': rng.choice([None, None, None, {'check_zero': True}, True, {'check_zero': True, 'max_cache_entries': 1}])})
     return cfgs
 
 
 def apply_cfg(md, c):
     m = with_solver(md, ln=c['ln'])
+    if c.get('rhsc'):
+        for sv in m['solvers'].values():
+            if (sv.get('ln') or {}).get('name') in ('direct', 'krylov'):
+                sv['ln']['opts'] = dict(sv['ln']['opts'], rhs_checking=c['rhsc'])
     if c.get('jac'):
         for sv in m['solvers'].values():
             if (sv.get('ln') or {}).get('name') == 'direct' and sv['ln']['opts'].get('assemble_jac'):
